@@ -21,7 +21,9 @@ REPLAY_DIR = os.path.join(ROOT, "replay")
 OUT = os.path.join(ROOT, "out")
 LOGS = os.path.join(OUT, "logs")
 CASES = os.path.join(ROOT, "replay", "cases")
-EVID = os.path.join(ROOT, "evidence")
+# seed runs (lib/seedrun.py) redirect the evidence so that a run on a mutated tree never
+# overwrites the evidence of the unchanged tree
+EVID = os.environ.get("VERIF_EVIDENCE_DIR") or os.path.join(ROOT, "evidence")
 REPO = "/repo"
 
 COMMON_FLAGS = ["-Z", "unstable-options", "-Z", "stubbing", "--no-assertion-reach-checks"]
@@ -50,20 +52,33 @@ def sync_lock(dst_dir):
         shutil.copyfile(src, dst)
 
 
-def build_kani():
-    """Compile /repo's current working tree + harness crate to goto binaries (one cargo
-    invocation, serialised across concurrent ./check processes)."""
+def build_kani(first_harness=None):
+    """Compile /repo's current working tree (both crates, through kani-compiler) and the harness
+    crate.  kani-compiler only generates code for the harnesses selected with --harness (the
+    filter is an argument of the final crate only), so the up-front build selects ONE harness of
+    the property: it rebuilds the repository crates when /repo changed and reports build errors;
+    every job then re-generates the harness crate for its own harness (a few seconds).
+    Generating all ~200 harnesses here cost ~170 s per check."""
     os.makedirs(OUT, exist_ok=True)
     sync_lock(KANI_DIR)
     t0 = time.time()
+    sel = ["--harness", first_harness, "--exact"] if first_harness else []
     with open(os.path.join(OUT, ".build.lock"), "w") as lk:
         fcntl.flock(lk, fcntl.LOCK_EX)
-        rc, out = sh(["cargo", "kani", "--only-codegen"] + COMMON_FLAGS, cwd=KANI_DIR,
+        rc, out = sh(["cargo", "kani", "--only-codegen"] + sel + COMMON_FLAGS, cwd=KANI_DIR,
                      timeout=1800)
     with open(os.path.join(OUT, "build.log"), "w") as f:
         f.write(out)
     ok = rc == 0 and "error" not in [l.split(":")[0] for l in out.splitlines() if l.startswith("error")]
     return ok, out, time.time() - t0
+
+
+def codegen_one(harness):
+    """goto binary of one harness (needed before its loops can be listed for --unwindset)"""
+    with open(os.path.join(OUT, ".build.lock"), "w") as lk:
+        fcntl.flock(lk, fcntl.LOCK_EX)
+        rc, out = sh(["cargo", "kani", "--only-codegen", "--harness", harness, "--exact"] + COMMON_FLAGS, cwd=KANI_DIR, timeout=1800)
+    return rc == 0
 
 
 def goto_file(harness):
@@ -83,6 +98,7 @@ def loops_of(harness):
     """[(loop id, file, line)] of the harness' goto program (cbmc --show-loops)."""
     if harness in _loops_cache:
         return _loops_cache[harness]
+    codegen_one(harness)
     f = goto_file(harness)
     res = []
     if f:
@@ -501,7 +517,7 @@ def run_property(prop, tier, seed, only=None, njobs=None):
     build_s = 0.0
     build_ok = True
     if any(j["kind"] == "kani" for j in jobs):
-        build_ok, bout, build_s = build_kani()
+        build_ok, bout, build_s = build_kani(next(j["h"] for j in jobs if j["kind"] == "kani"))
         if not build_ok:
             log("BUILD FAILED (harness crate against /repo working tree)")
             log("\n".join(l for l in bout.splitlines() if l.startswith("error") or " --> " in l)[:4000])
